@@ -57,3 +57,35 @@ pub fn bishop(coord: Coord, occupied: Bitboard) -> Bitboard {
         *entry.lookup.add(idx as usize) & entry.post_mask
     }
 }
+
+#[cfg(feature = "verif_hooks")]
+pub fn verif_rook_magic(coord: Coord, occupied: Bitboard) -> crate::verif::MagicView {
+    let entry = &MAGIC_ROOK[coord.index()];
+    let magic = MAGIC_CONSTS_ROOK[coord.index()];
+    let shift = MAGIC_SHIFTS_ROOK[coord.index()];
+    let idx = (occupied & entry.mask).as_raw().wrapping_mul(magic) >> shift;
+    let base = MAGIC_LOOKUP_ROOK.as_ptr();
+    crate::verif::MagicView {
+        mask: entry.mask,
+        post_mask: entry.post_mask,
+        offset: (entry.lookup as usize - base as usize) / std::mem::size_of::<Bitboard>(),
+        idx: idx as usize,
+        table_len: MAGIC_LOOKUP_ROOK.len(),
+    }
+}
+
+#[cfg(feature = "verif_hooks")]
+pub fn verif_bishop_magic(coord: Coord, occupied: Bitboard) -> crate::verif::MagicView {
+    let entry = &MAGIC_BISHOP[coord.index()];
+    let magic = MAGIC_CONSTS_BISHOP[coord.index()];
+    let shift = MAGIC_SHIFTS_BISHOP[coord.index()];
+    let idx = (occupied & entry.mask).as_raw().wrapping_mul(magic) >> shift;
+    let base = MAGIC_LOOKUP_BISHOP.as_ptr();
+    crate::verif::MagicView {
+        mask: entry.mask,
+        post_mask: entry.post_mask,
+        offset: (entry.lookup as usize - base as usize) / std::mem::size_of::<Bitboard>(),
+        idx: idx as usize,
+        table_len: MAGIC_LOOKUP_BISHOP.len(),
+    }
+}
